@@ -46,8 +46,16 @@ fn to_emmyrc_json(config: &FlattenConfigObject) -> Value {
         let mut current = &mut emmyrc;
         for i in 0..keys.len() {
             let key = keys[i];
+            // a key that is both a value and a prefix ("a" and "a.b"): the nested form wins,
+            // whichever of the two is visited first
+            if !current.is_object() {
+                *current = Value::Object(Default::default());
+            }
             if i == keys.len() - 1 {
-                current[key] = v.clone();
+                let slot = &mut current[key];
+                if !slot.is_object() {
+                    *slot = v.clone();
+                }
             } else {
                 current = current
                     .as_object_mut()
